@@ -452,6 +452,7 @@ export class SchemaPrintingContext {
   readonly definitionContainerKey: string | null;
   private readonly collectedDefinitions: Record<string, JSONSchema7Definition>;
   private readonly inProgressDefinitions: Record<string, boolean>;
+  private readonly storedOrder: string[] = [];
   private readonly namedTypeSchemaOverrides: Record<string, Runtype>;
 
   constructor(options: SchemaPrintingContextOptions) {
@@ -492,17 +493,26 @@ export class SchemaPrintingContext {
     return this.namedTypeSchemaOverrides[name];
   }
 
-  markDefinitionInProgress(name: string): void {
+  // returns a checkpoint: the number of definitions stored so far
+  markDefinitionInProgress(name: string): number {
     this.inProgressDefinitions[name] = true;
+    return this.storedOrder.length;
   }
 
-  // a definition whose printing threw is not in progress any more
-  abandonDefinition(name: string): void {
+  // a definition whose printing threw is not in progress any more; the definitions completed
+  // inside the failed call (since `checkpoint`) may refer to it and are dropped with it
+  abandonDefinition(name: string, checkpoint?: number): void {
     delete this.inProgressDefinitions[name];
+    if (checkpoint != null) {
+      for (const stored of this.storedOrder.splice(checkpoint)) {
+        delete this.collectedDefinitions[stored];
+      }
+    }
   }
 
   storeDefinition(name: string, schema: JSONSchema7Definition): void {
     this.collectedDefinitions[name] = schema;
+    this.storedOrder.push(name);
     delete this.inProgressDefinitions[name];
   }
 
@@ -1993,12 +2003,12 @@ export class AnyOfDiscriminatedRuntype extends BaseRuntype {
     if (printingContext.hasDefinition(name) || printingContext.isDefinitionInProgress(name)) {
       return;
     }
-    printingContext.markDefinitionInProgress(name);
+    const checkpoint = printingContext.markDefinitionInProgress(name);
     let body: JSONSchema7;
     try {
       body = target.schema(ctx);
     } catch (e) {
-      printingContext.abandonDefinition(name);
+      printingContext.abandonDefinition(name, checkpoint);
       throw e;
     }
     printingContext.storeDefinition(name, body);
@@ -2549,13 +2559,13 @@ export abstract class BaseRefRuntype extends BaseRuntype {
         throw new Error("INTERNAL ERROR: Missing SchemaPrintingContext");
       }
       if (!printingContext.hasDefinition(name) && !printingContext.isDefinitionInProgress(name)) {
-        printingContext.markDefinitionInProgress(name);
+        const checkpoint = printingContext.markDefinitionInProgress(name);
         const schemaTarget = printingContext.getNamedTypeSchemaOverride(name) ?? to;
         let body: JSONSchema7;
         try {
           body = schemaTarget.schema(ctx);
         } catch (e) {
-          printingContext.abandonDefinition(name);
+          printingContext.abandonDefinition(name, checkpoint);
           throw e;
         }
         printingContext.storeDefinition(name, body);
